@@ -172,6 +172,7 @@ type Engine struct {
 	ioSites       []ioSite
 	constArrs     map[string]string
 	outputs   []Val
+	congDone  map[string]bool
 	sumByExpr map[*EQuant][]sumInst
 	sumFns        map[string]string
 	sortPerms     []sortPerm
@@ -224,7 +225,7 @@ func (e *Engine) initHeap(name, sort string) string {
 			o.prefix++
 		}
 	}
-	if strings.HasPrefix(name, "called_") || name == "lock_held" {
+	if strings.HasPrefix(name, "called_") || strings.HasPrefix(name, "iterstopped_") || name == "lock_held" {
 		// ghost flags start false
 		e.vc.insertGlobal(1, "(assert (not "+c+"))")
 		for _, o := range e.vc.obls {
@@ -438,6 +439,8 @@ type Frame struct {
 	ranges       map[ssa.Value]*rangeInfo     // collections range builders (walk.go)
 	iterKey      map[int]func(string) string // callback iteration N: last key component of element j (iterkey(N, j))
 	iterStore    map[ssa.Value]*ghostRef     // Map.Iterate call -> store (indexiter.go)
+	fvBind       map[*ssa.Function][]ssa.Value // closures created in this function: their captured variables
+	modLoop      map[int]bool                  // blocks of the loop whose modifications are being collected
 }
 
 type deferRec struct {
@@ -1440,7 +1443,9 @@ func (fr *Frame) autoFrameHeaps(mods map[string]*modInfo) []string {
 
 func (fr *Frame) loopMods(li *loopInfo) map[string]*modInfo {
 	mods := map[string]*modInfo{}
+	fr.modLoop = li.blocks
 	fr.modsOf(fr.fn, li.blocks, 0, mods, true)
+	fr.modLoop = nil
 	return mods
 }
 
@@ -1524,6 +1529,26 @@ func (fr *Frame) modsOf(fn *ssa.Function, blocks map[int]bool, depth int, mods m
 						// closure-captured variable: reference known from bindings
 						rv := fr.get(fv)
 						add(hn, rv.S, false)
+					} else if fv, ok := root.(*ssa.FreeVar); ok && fr.fvBind[fn] != nil {
+						// a closure created in the function under analysis writes a captured local of that function
+						done := false
+						for i, f2 := range fn.FreeVars {
+							if f2 != fv || i >= len(fr.fvBind[fn]) {
+								continue
+							}
+							if al2, ok := fr.fvBind[fn][i].(*ssa.Alloc); ok && al2.Parent() == fr.fn {
+								if fr.modLoop != nil && fr.modLoop[al2.Block().Index] {
+									add(hn, "", false) // the cell is allocated inside the loop
+									done = true
+								} else if rv, ok := fr.regs[al2]; ok {
+									add(hn, rv.S, false)
+									done = true
+								}
+							}
+						}
+						if !done {
+							add(hn, "", true)
+						}
 					} else {
 						add(hn, "", true)
 					}
